@@ -70,11 +70,13 @@ class C06(HistoryProp):
     quick_budget_s, thorough_budget_s = 170, 1800
     families = [f for f in hist.FAMILIES if f not in ("destructive", "human_overwrites_ai", "ci_rewrite")] + ["destructive"]
     rule = ("one run = the same concrete op list executed in lock step in a plain-git world and a wrapper world "
-            "(identical user hooks in both): one history family (commits, rebase forms, cherry-pick, amend, merge, "
+            "(identical user hooks in both; in a quarter of the runs the git-ai world is the wrapper in a repository that ALSO "
+            "has the managed hooks installed, user hooks in a core.hooksPath directory): one history family (commits, rebase forms, cherry-pick, amend, merge, "
             "squash, reset, stash, switch, destructive commands, partial commits) interleaved with command lines from a "
             "grammar over global options (-C, -c, --git-dir/--work-tree, --no-pager, -p), aliases (plain, chained, "
             "shell), plumbing, invalid commands and options, tag/branch/mv/rm/revert/gc/notes; after every command exit "
-            "status, stdout, HEAD, refs outside refs/notes/ai*, index, work-tree bytes, stash, in-progress state and the "
+            "status (raw wait status: aliases whose shell kills git with KILL/TERM/PIPE/HUP or exits 3/200), stdout, HEAD, refs "
+            "outside refs/notes/ai*, index, work-tree bytes, stash, in-progress state incl. FETCH_HEAD and the "
             "user-hook log must be equal. distinct = digest of the command sequence; non-trivial = at least one hooked "
             "command (commit/rebase/...) ran with AI state present")
     assumptions = ["ref/object census commands (for-each-ref without pattern, count-objects, gc, pack-refs --all) are not generated or only in forms that do not touch the AI notes namespaces",
